@@ -3,6 +3,7 @@ package workprops
 import (
 	"bufio"
 	"context"
+	"crypto/tls"
 	"encoding/json"
 	"fmt"
 	"io"
@@ -166,6 +167,7 @@ type WNode struct {
 	sockN     int
 	VerifyKey string
 	SignKey   string
+	meshTLS   *tls.Config
 }
 
 // WNodeOpts selects what the node offers.
@@ -174,12 +176,13 @@ type WNodeOpts struct {
 	MeshSvc   string
 	VerifyKey string // path of the public key PEM used to verify signatures
 	SignKey   string
+	MeshTLS   *tls.Config // TLS configuration of the control service on the mesh (nil: none)
 }
 
 // NewWNode starts workceptor and a control service on an existing netceptor node.
 func NewWNode(n *netceptor.Netceptor, baseDir string, o WNodeOpts) (*WNode, error) {
 	ctx, cancel := context.WithCancel(context.Background())
-	wn := &WNode{ID: n.NodeID(), N: n, DataDir: filepath.Join(baseDir, "data"), ctx: ctx, cancel: cancel, Mesh: o.MeshSvc, VerifyKey: o.VerifyKey, SignKey: o.SignKey}
+	wn := &WNode{ID: n.NodeID(), N: n, DataDir: filepath.Join(baseDir, "data"), ctx: ctx, cancel: cancel, Mesh: o.MeshSvc, VerifyKey: o.VerifyKey, SignKey: o.SignKey, meshTLS: o.MeshTLS}
 	if err := os.MkdirAll(wn.DataDir, 0o700); err != nil {
 		return nil, err
 	}
@@ -228,7 +231,7 @@ func (wn *WNode) startWork(baseDir string, tcp bool) error {
 	if wn.sockN > 1 && mesh != "" {
 		mesh = fmt.Sprintf("%s%d", wn.Mesh, wn.sockN) // a fresh service name after a restart (see C17 on re-listening)
 	}
-	if err := cs.RunControlSvc(wctx, mesh, nil, sock, 0o600, tcpAddr, nil); err != nil {
+	if err := cs.RunControlSvc(wctx, mesh, wn.meshTLS, sock, 0o600, tcpAddr, nil); err != nil {
 		wcancel()
 		return err
 	}
